@@ -36,13 +36,19 @@ structure Op where
   evict : Key → Bool
   /-- the cache key the call looks up (`dft2` family), if any -/
   key : Option Key
+  /-- value of the call's `inplace=` flag (only read for the functions in `inplaceGated`) -/
+  inplace : Bool := true
 
 def row? (tbl : List Gen.EffRow) (fn : String) : Option Gen.EffRow := tbl.find? (fun r => r.fn == fn)
 
-/-- parameter slots the function may write in place. A function missing from the table may write every slot it is given. -/
+/-- functions whose in-place behaviour is switched by an `inplace=` argument: with `inplace=False` they work on `self.copy()` -/
+def inplaceGated : List String := ["plane.Plane.fit_tilt"]
+
+/-- parameter slots the function may write in place. A function missing from the table may write every slot it is given;
+an `inplace=`-gated function called with `inplace=False` writes none. -/
 def writeSlots (tbl : List Gen.EffRow) (op : Op) : List String :=
   match row? tbl op.fn with
-  | some r => r.writes.map (·.1)
+  | some r => if inplaceGated.contains op.fn && !op.inplace then [] else r.writes.map (·.1)
   | none => op.bind.map (·.1)
 
 /-- cells the op may write: the cells bound to its write slots and everything those objects hold by reference -/
